@@ -292,6 +292,38 @@ def check_property(w):
                  f"leakage {leak:.2e} (allowed {LEAK_MAX * k:.3f}); {k} pulse gate(s)")
 
 
+def idle_pad_points():
+    """number of zero samples `_process_idling_tlist` puts on either side of a long idle interval of a continuous pulse
+    (read from the source; 10 before fixes/C18-3.patch)"""
+    import ast
+    try:
+        tree = ast.parse(open(os.path.join(paths.REPO, "src", "qutip_qip", "compiler", "gatecompiler.py")).read())
+        for n in ast.walk(tree):
+            if isinstance(n, ast.FunctionDef) and n.name == "_process_idling_tlist":
+                ks = [c.args[2].value for c in ast.walk(n) if isinstance(c, ast.Call) and ast.unparse(c.func) == "np.linspace"
+                      and len(c.args) == 3 and isinstance(c.args[2], ast.Constant)]
+                if ks:
+                    return min(ks)
+    except Exception:
+        pass
+    return 0
+
+
+SMALL_ANGLE = 0.1
+
+
+def in_spline_ringing_class(w):
+    """recorded finding C18-3 (open while the padding has fewer than 20 samples): a superconducting-qubit circuit on two or
+    more qubits with a rotation by a small non-zero angle - its very short pulse is followed by a long idle interval on
+    which the cubic spline of the coefficient rings.  Not covered by any theorem (the theorems end at the compiled
+    samples); the MEASURED sweep leaves this class out and says so."""
+    if w["dev"] != "scq":
+        return False
+    used = {q for g in w["gates"] for q in list(g[1]) + list(g[2])}
+    small = any(g[0] in ("RX", "RY", "RZ", "RZX") and g[3] is not None and 0 < abs(g[3]) < SMALL_ANGLE for g in w["gates"])
+    return small and len(used) >= 2
+
+
 # ------------------------------------------------------------------------------------------
 
 ANGLES = [k * PI / 4 for k in range(-8, 9)] + [1.0, -2.5, 0.3, 6.0, -5.5, 1e-3]
@@ -328,7 +360,7 @@ class C18(PropertyCheck):
     drivers = ["drv_cqed"]
     theorems = ["QipVerif.C18." + t for t in (
         "tables_tie", "cq_rot_calibrated", "cq_exchange_compiled", "cq_iswap_calibrated", "cq_sqrtiswap_calibrated",
-        "cq_sqrtiswap_unreversed_wrong", "cq_phase_accumulated", "hann_envelope", "scq_rot_calibrated",
+        "cq_sqrtiswap_unreversed_wrong", "cq_corrections_commute", "cq_phase_accumulated", "hann_envelope", "scq_rot_calibrated",
         "zx_strength_of_pair", "scq_rzx_calibrated", "scq_rzx_unsigned_wrong", "scq_cnot_calibrated")]
     technique = ("Lean 4: formulas, gate maps, channel tables and gate sequences of the two pulse compilers and device models "
                  "regenerated from the source with ast into functions over an abstract arithmetic (R in the theorems, IEEE "
@@ -383,6 +415,10 @@ class C18(PropertyCheck):
         "2*d*T an integer - both hold at the default parameters (-2500 / -3750 turns), and the measured fidelity collapses "
         "when they fail (g = [0.01, 0.012]: 0.05; g = 0.02: SQRTISWAP 0.0)",
         "hardware strengths are non-zero",
+        "measured sweep: while GateCompiler._process_idling_tlist pads idle intervals with fewer than 20 zero samples "
+        "(recorded finding, repair fixes/C18-3.patch) random superconducting-qubit circuits on two or more qubits that contain "
+        "a rotation by 0 < |theta| < 0.1 are left out of the random part of the sweep (cubic-spline ringing on the long idle "
+        "interval after a very short pulse; the recorded witness is replayed every run)",
         "superconducting compiler: default args (hann, DRAG on or off); the DRAG corrections enter only the measured part",
     ]
     rule = ("case = (device, number of qubits, hardware parameter vectors, gate list with placements and angles, DRAG flag); "
@@ -789,8 +825,11 @@ class C18(PropertyCheck):
                 yield w, d
             if time.time() - t0 > budget_s:
                 return
+        skip = idle_pad_points() < 20
         while time.time() - t0 < budget_s:
             w = self._rand_witness(ctx.rng)
+            if skip and in_spline_ringing_class(w):
+                continue
             f, d = check_property(w)
             if f:
                 yield w, d
@@ -812,8 +851,11 @@ class C18(PropertyCheck):
             n += 1
             if f:
                 yield w, d
+        skip = idle_pad_points() < 20
         while time.time() - t0 < budget:
             w = self._rand_witness(ctx.rng)
+            if skip and in_spline_ringing_class(w):
+                continue
             f, d = check_property(w)
             n += 1
             if f:
